@@ -219,6 +219,25 @@ func abortClass(stderr string) (class, detail string) {
 			break
 		}
 	}
+	// a panic raised by the harness itself (generators, oracles) is a bug of the
+	// machinery, never a verdict about the library
+	inTrace := false
+	for _, l := range lines {
+		if strings.HasPrefix(l, "goroutine ") {
+			inTrace = true
+			continue
+		}
+		if !inTrace || l == "" || strings.HasPrefix(l, "\t") || !strings.Contains(l, "(") {
+			continue
+		}
+		if strings.HasPrefix(l, "panic(") || strings.HasPrefix(l, "runtime.") || strings.HasPrefix(l, "runtime/") {
+			continue
+		}
+		if strings.Contains(l, "/zzharness/") || strings.Contains(l, "/zzsimrt.") {
+			return "harness-bug", trimStr(first+" in "+l, 300)
+		}
+		break
+	}
 	kind := "abort"
 	if strings.Contains(first, "stack") {
 		kind = "stack"
